@@ -109,7 +109,7 @@ type C15SchedCase struct {
 	SlowAt string `json:"slow_at,omitempty"`
 }
 
-var c15SchedOps = []string{"cb-done-post", "cb-done-post", "cb-done-redirect", "cb-done-redirect", "cb-pending", "sso", "flow-post", "flow-redirect", "logout", "attrquery", "metadata", "certificate"}
+var c15SchedOps = []string{"cb-done-body", "sso-refused-body", "cb-done-post", "cb-done-post", "cb-done-redirect", "cb-done-redirect", "cb-pending", "sso", "flow-post", "flow-redirect", "logout", "attrquery", "metadata", "certificate"}
 
 var c15SchedFaults = [][2]string{{"GetResponseSigningKey", "error"}, {"GetResponseSigningKey", "mismatch"}, {"GetResponseSigningKey", "nil"}, {"SetUserinfoWithUserID", "error"}, {"SetUserinfoWithUserID", "partial"},
 	{"GetEntityByID", "error"}, {"GetEntityIDByAppID", "error"}, {"AuthRequestByID", "error"}, {"CreateAuthRequest", "timeout"}, {"GetMetadataSigningKey", "error"}, {"SetUserinfoWithLoginName", "error"}}
@@ -479,4 +479,54 @@ func TestC07Sched(t *testing.T) {
 		})
 		return out
 	})
+}
+
+// schedUnder runs focused scheduled cases under another property's name: keep maps C15 violation keys to that property's.
+func schedUnder(t *testing.T, prop, rule string, ops []string, keep map[string]string, sameSP bool) {
+	col := ev.For(prop, "exploration", rule)
+	old := runtime.GOMAXPROCS(4)
+	defer runtime.GOMAXPROCS(old)
+	searchRapid(t, col, func(t *rapid.T) C15SchedCase {
+		c := genSchedFocused(t, ops, false, sameSP && rapid.Bool().Draw(t, "samesp"))
+		if !sameSP {
+			c.SameHost = false // one host per session: a mix-up shows as a foreign issuer
+		}
+		// writes are where a page or document that is still being sent can be overtaken by another one: stall one session
+		if rapid.Bool().Draw(t, "stall") {
+			c.Stalled = rapid.IntRange(0, c.N-1).Draw(t, "stalled")
+		}
+		return c
+	}, func(c C15SchedCase) []*ev.Violation {
+		vs, _, trace := c15SchedRun(c)
+		var out []*ev.Violation
+		for _, v := range vs {
+			if to, ok := keep[v.Key]; ok {
+				out = append(out, ev.V(to, "sessions overlapping under a generated schedule (%s): %s", short(strings.Join(trace, " "), 160), v.What))
+			}
+		}
+		col.Case(len(trace) > c.N+2, ev.Fingerprint("sched", c.N, c.Ops, c.Stalled >= 0, c.SlowAt), []string{"scheduled-sessions", fmt.Sprintf("scheduled/stalled=%v", c.Stalled >= 0)}, func() any {
+			return map[string]any{"case": c, "trace": strings.Join(trace, " ")}
+		})
+		return out
+	})
+}
+
+// TestC17Sched: the page a user agent receives holds its own session's values even when another session's page is rendered
+// while the first is still being written.
+func TestC17Sched(t *testing.T) {
+	schedUnder(t, "C17", c17Rule, []string{"cb-done-post", "cb-done-post", "flow-post", "logout"}, map[string]string{
+		"C15/foreign-session-data": "C17/page-carries-another-sessions-values", "C15/callback-relaystate": "C17/page-carries-another-sessions-values",
+		"C15/callback-destination": "C17/page-carries-another-sessions-values", "C15/logout-response-mixed-up": "C17/page-carries-another-sessions-values",
+		"C15/callback-reply-not-well-formed": "C17/page-structure-altered", "C15/callback-wrong-delivery": "C17/page-structure-altered", "C15/panic": "C17/panic"}, true)
+}
+
+// TestC11Sched: under host-derived issuers every reply carries the entity ID the metadata shows for its own host, whatever
+// other hosts are being served at the same moment.
+func TestC11Sched(t *testing.T) {
+	schedUnder(t, "C11", c11Rule, []string{"metadata", "cb-done-post", "cb-done-redirect", "cb-done-body", "cb-done-body", "sso-refused-body", "attrquery", "logout"}, map[string]string{
+		"C15/body-reply-mixed-up": "C11/issuer-differs-from-entityid:concurrent", "C15/body-reply": "C11/reply-not-well-formed:concurrent",
+		"C15/foreign-session-data": "C11/issuer-differs-from-entityid:concurrent", "C15/metadata-issuer-mixed-up": "C11/issuer-differs-from-entityid:concurrent",
+		"C15/callback-response-issuer": "C11/issuer-differs-from-entityid:concurrent", "C15/callback-assertion-issuer": "C11/issuer-differs-from-entityid:concurrent",
+		"C15/attrquery-response-mixed-up": "C11/issuer-differs-from-entityid:concurrent", "C15/logout-response-mixed-up": "C11/issuer-differs-from-entityid:concurrent",
+		"C15/metadata-reply": "C11/metadata-not-well-formed", "C15/panic": "C11/panic"}, false)
 }
